@@ -454,7 +454,59 @@ fn layered_limits_2(ctx: &mut Ctx) {
     }
 }
 
+/// A converter in which fractions are switched on for temperatures (units with an offset) and whose lists offer more than
+/// one unit: whatever unit and form a caller ends up with denotes the temperature it started from.
+fn offset_units(ctx: &mut Ctx) {
+    let layer = "[fractions.quantity]\ntemperature = { enabled = true, max_denominator = 4 }\n\n[[quantity]]\nquantity = \"temperature\"\nbest = { metric = [\"C\", \"K\"], imperial = [\"F\"] }\n[quantity.units]\nmetric = [{ names = [\"kelvin\"], symbols = [\"K\"], ratio = 1 }]\n";
+    let Some(conv) = toml::from_str::<cooklang::convert::UnitsFile>(layer).ok().and_then(|f| Converter::builder().with_units_file(cooklang::convert::UnitsFile::bundled()).ok()?.with_units_file(f).ok()?.finish().ok()) else {
+        ctx.harness_errors.push("C12: the converter with temperature fractions does not build".into());
+        return;
+    };
+    let mut r = crate::core::Rng::new(ctx.seed ^ 0x7e3);
+    let n = ctx.budget(3_000, 300_000);
+    for i in 0..n {
+        let unit = ["K", "C", "F"][(i % 3) as usize];
+        let v = match (i / 3) % 3 {
+            0 => (r.below(1600) as f64) / 4.0,
+            1 => 273.15 + (r.below(40) as f64) / 4.0,
+            _ => r.log_uniform(1e-1, 1e3),
+        };
+        for op in 0..4 {
+            let mut q = Quantity::new(Value::Number(Number::Regular(v)), Some(unit.to_string()));
+            let case = Case::new("caller", format!("{v} {unit} op{op}"), 0, "temperature_fractions").with(json!({"bits": v.to_bits(), "unit": unit, "op": op}));
+            ctx.evals += 1;
+            let res = crate::core::guarded(|| match op {
+                0 => q.fit(&conv).is_ok(),
+                1 => q.convert(System::Metric, &conv).is_ok(),
+                2 => q.convert(System::Imperial, &conv).is_ok(),
+                _ => q.convert(if unit == "K" { "C" } else { "K" }, &conv).is_ok(),
+            });
+            if let Err(p) = res {
+                ctx.panic_violation(&case, "caller", p);
+                continue;
+            }
+            let base = |val: f64, u: &str| crate::units::def_of(&conv, u).map(|d| d.to_base(val));
+            let before = base(v, unit);
+            let after = match q.value() {
+                Value::Number(n) => q.unit().and_then(|u| base(n.value(), u)),
+                _ => None,
+            };
+            match (before, after) {
+                (Some(b), Some(a)) if crate::units::close(a, b, 1e-9, 1e-9) => {
+                    ctx.count("offset_unit_results_denote_the_input");
+                    if matches!(q.value(), Value::Number(Number::Fraction { .. })) {
+                        ctx.count("offset_unit_fraction_results");
+                    }
+                    ctx.nontrivial_hash(crate::core::hash64(format!("{v}{unit}{op}").as_bytes()));
+                }
+                (b, a) => ctx.violation(&case, "caller", "offset_unit_result_denotes_another_amount", format!("{v} {unit} -> {q} ({:?}): {b:?} K before, {a:?} K after", q.value())),
+            }
+        }
+    }
+}
+
 pub fn run(ctx: &mut Ctx) {
+    offset_units(ctx);
     layered_limits(ctx);
     layered_limits_2(ctx);
     let vals = values(ctx);
